@@ -16,7 +16,7 @@ TRUSTED_BASE_COMMON = [
     'Coq 8.16.1 kernel and its VM (vm_compute used for finite reflection and examples); no native_compute',
     'axioms: none declared by the development; Print Assumptions output of every property theorem is recorded in coverage.assumptions_printed',
     'extraction: Extraction Language OCaml + ExtrOcamlBasic only (Extract Inductive bool, option, unit, list, prod, sumbool, comparison); N/Z/positive/nat/byte stay extracted inductives; no Extract Constant',
-    'ocaml/driver.ml (hex/decimal parsing and printing) and OCaml 4.13.1 compiler',
+    'ocaml/prelude.ml + handlers/*.ml + main.ml (hex/decimal parsing and printing, request dispatch) and OCaml 4.13.1 compiler',
     'the correspondence harness under harness/ (generators, canonicalisers, monkeypatch recorders) and CPython 3.12 running /repo',
     'hand-written Gallina models: tied to /repo only by the correspondence check of this run',
 ]
@@ -32,16 +32,21 @@ def sh(cmd, timeout=1800, cwd=None, env=None):
 
 
 def ensure_makefile():
+    """Regenerate _CoqProject / Extract.v / driver.ml from the per-module fragments; returns the Drv targets."""
+    rc, out = sh([sys.executable, os.path.join(VERIF, 'tools', 'genbuild.py')])
+    if rc != 0:
+        raise RuntimeError('genbuild failed: ' + out)
     mk = os.path.join(COQ, 'Makefile')
     cp = os.path.join(COQ, '_CoqProject')
     if not os.path.exists(mk) or os.path.getmtime(mk) < os.path.getmtime(cp):
         sh('coq_makefile -f _CoqProject -o Makefile', cwd=COQ)
+    return out.split()
 
 
 def build(targets, jobs=16):
     """Build the given coq targets (relative .vo paths) plus the extracted driver binary."""
-    ensure_makefile()
-    rc, out = sh('timeout 1500 make -j%d %s' % (jobs, ' '.join(targets + ['Driver.vo'])), cwd=COQ)
+    drv = ensure_makefile()
+    rc, out = sh('timeout 2400 make -j%d %s' % (jobs, ' '.join(targets + drv)), cwd=COQ, timeout=2500)
     if rc != 0:
         return False, out
     rc, out2 = sh('timeout 600 make', cwd=OCAML)
